@@ -20,6 +20,9 @@ def run(ses):
     cases = [("IU2", k0, "slice_none") for k0 in KINDS]
     run_cases(ses, "props.arraychain", "case_getitem", cases)
     run_cases(ses, "props.arraychain", "case_post_init", [("IU2",)])
+    from props import arraychain as _ac
+
+    _ac.resolve_limits(ses)
     for unit in (("image11q",) if ses.tier == "quick" else ("image10q", "image11q")):
         records.check_unit(ses, unit, ["iolog"])
     arraychain.trusted(ses)
